@@ -822,12 +822,30 @@ class SymArr:
     def mean(self, axis=None):
         from .prelude_np import NP
 
+        if axis is None and ctx().concrete:
+            vals = [self.at(*ix) for ix in itertools.product(*[range(int(n)) for n in self.shape])]
+            return sum(vals) / len(vals)
+        if axis is None and self.ndim == 1 and is_sym(self.shape[0]):
+            from .core import opaque_of_arrays
+
+            ctx().used_prelude.add("ndarray.mean of a whole array of symbolic length (opaque function of its contents)")
+            return opaque_of_arrays("MEAN", self)
         return NP.mean(self, axis=axis)
 
     def std(self, axis=None):
-        from .prelude_np import NP
+        if axis is None and ctx().concrete:
+            vals = [float(self.at(*ix)) for ix in itertools.product(*[range(int(n)) for n in self.shape])]
+            m = sum(vals) / len(vals)
+            return (sum((v - m) ** 2 for v in vals) / len(vals)) ** 0.5
+        if axis is None:
+            from .core import opaque_of_arrays
 
-        return NP.std(self, axis=axis)
+            c = ctx()
+            c.used_prelude.add("ndarray.std of a whole array (opaque function of its contents, >= 0)")
+            v = opaque_of_arrays("STD", self)
+            c.assume(v >= 0)
+            return v
+        raise Unsupported("std with axis")
 
     def cumsum(self):
         from .prelude_np import NP
